@@ -159,17 +159,7 @@ def report_verdicts(chk, verdicts, seed, payload_for):
         for clause, site in v["clauses"]:
             key = pipe_tlc.key_of(clause, site)
             payload = None
-            if clause.startswith("WF.synthetic-location"):
-                # the input class is part of the identity of this violation: a user-written `$next` whose diagnostic loses
-                # its position is not the recorded finding about synthesized size expressions (F14)
-                pl = payload_for(v)
-                texts = str(pl.get("text") or "") if isinstance(pl, dict) else ""
-                if "$next" in texts:
-                    key += "|input-uses-$next"
-                if key not in done:
-                    done.add(key)
-                    payload = pl
-            elif key not in done:
+            if key not in done:
                 done.add(key)
                 payload = payload_for(v)
             chk.violation(key, "%s at %s  [compilation %s, event %s, line %s of its stream]"
